@@ -75,15 +75,14 @@ const string& GetTimeAsStringMS(string& result, const Tickval *tv, const unsigne
    oss << setfill('0') << setw(4) << (ptim->tm_year + 1900) << '-';
    oss << setw(2) << (ptim->tm_mon + 1)  << '-' << setw(2) << ptim->tm_mday << ' ' << setw(2) << ptim->tm_hour;
    oss << ':' << setw(2) << ptim->tm_min << ':';
+	oss << setfill('0') << setw(2) << ptim->tm_sec;
 	if (dplaces)
 	{
-		const double secs((startTime->secs() % 60) + static_cast<double>(startTime->nsecs()) / Tickval::billion);
-		oss.setf(ios::showpoint);
-		oss.setf(ios::fixed);
-		oss << setw(3 + dplaces) << setfill('0') << setprecision(dplaces) << secs;
+		// truncate the fraction: rounding it could carry into the seconds field and show :60
+		static const unsigned divs[] { 1000000000, 100000000, 10000000, 1000000, 100000, 10000, 1000, 100, 10, 1 };
+		const unsigned dp(dplaces > 9 ? 9 : dplaces);
+		oss << '.' << setw(dp) << (startTime->nsecs() / divs[dp]);
 	}
-	else
-		oss << setfill('0') << setw(2) << ptim->tm_sec;
    return result = oss.str();
 }
 
